@@ -148,7 +148,7 @@ fn class_of(e: &ckb_error::Error) -> String {
         Some(ScriptError::Other(_)) => "other".into(),
         Some(ScriptError::CyclesOverflow(..)) => "overflow".into(),
         Some(ScriptError::Interrupts) => "interrupts".into(),
-        Some(ScriptError::VMInternalError(e)) => format!("vm-error:{}", format!("{e:?}").split(['(', ' ']).next().unwrap_or("?")),
+        Some(ScriptError::VMInternalError(e)) => { if std::env::var("VERIF_SHOW_PANIC").is_ok() { eprintln!("vm internal error: {e:?}"); } format!("vm-error:{}", format!("{e:?}").split(['(', ' ']).next().unwrap_or("?")) }
         Some(other) => format!("script-error:{}", format!("{other:?}").split(['(', ' ']).next().unwrap_or("?")),
         None => "non-script-error".into(),
     }
@@ -168,7 +168,12 @@ fn measure(v: &Verifier) -> Option<Vec<(u64, i8)>> {
         match v.verify_single(g.group_type, hash, u64::MAX) {
             Ok(c) => out.push((c, 0)),
             Err(ScriptError::ValidationFailure(_, code)) => out.push((0, code)),
-            Err(_) => return None,
+            Err(e) => {
+                if std::env::var("VERIF_SHOW_PANIC").is_ok() {
+                    eprintln!("measure: group does not run: {e:?}");
+                }
+                return None;
+            }
         }
     }
     Some(out)
@@ -318,8 +323,7 @@ fn gen_case(p: &Prog, rng: &mut Rng, thorough: bool, consensus: &Arc<Consensus>)
     let v = verifier(&rtx, consensus);
     let groups = measure(&v)?;
     let total: u64 = groups.iter().map(|g| g.0).sum();
-    let all_ok = groups.iter().all(|g| g.1 == 0);
-    let mut lines = vec![format!("prog {} {}", p.name, groups.iter().map(|(c, e)| format!("{c}:{e}")).collect::<Vec<_>>().join(","))];
+XX, p.name, groups.iter().map(|(c, e)| format!("{c}:{e}")).collect::<Vec<_>>().join(","))];
     // budgets
     if all_ok {
         for b in [total.saturating_sub(1), total, total + 1, 0, total / 2, u64::MAX] {
@@ -348,8 +352,9 @@ fn gen_case(p: &Prog, rng: &mut Rng, thorough: bool, consensus: &Arc<Consensus>)
     let n_random = if thorough { 60 } else { 12 };
     for _ in 0..n_random {
         let k = rng.range(1, 6);
-        let base = (total / rng.range(2, 40)).max(if exhaustive { 1 } else { total / 400 + 1 });
-        let ls: Vec<String> = (0..k).map(|_| (rng.range(1, base.max(1)) + if exhaustive { 0 } else { total / 400 }).to_string()).collect();
+        let floor = if exhaustive { 0 } else if thorough { total / 300 } else { total / 60 };
+        let base = (total / rng.range(2, 40)).max(1);
+        let ls: Vec<String> = (0..k).map(|_| (rng.range(1, base) + floor).to_string()).collect();
         lines.push(format!("chunks {}", ls.join(",")));
     }
     // suspend, then complete with budgets around the true cost
@@ -369,7 +374,14 @@ fn gen_case(p: &Prog, rng: &mut Rng, thorough: bool, consensus: &Arc<Consensus>)
 }
 
 pub fn run(opts: &Opts) {
-    let consensus = Arc::new(ConsensusBuilder::default().build());
+    let consensus = Arc::new(
+        ConsensusBuilder::default()
+            .hardfork_switch(ckb_types::core::hardfork::HardForks {
+                ckb2021: ckb_types::core::hardfork::CKB2021::new_dev_default(),
+                ckb2023: ckb_types::core::hardfork::CKB2023::new_dev_default(),
+            })
+            .build(),
+    );
     let rt = tokio::runtime::Builder::new_multi_thread().worker_threads(2).enable_all().build().expect("tokio runtime");
     let mut out = Out::new(&opts.out);
     if let Some(rp) = &opts.replay {
